@@ -54,7 +54,7 @@ NormEnv(mod) == LET env == EnvOf(mod) IN [n \in DOMAIN env |-> NormT(env, mod.ta
 RECURSIVE OuterTags(_, _)
 OuterTags(env, T) ==
   CASE T.k = "TAGGED" -> {Tag(T.cl, T.num)}
-    [] T.k = "REF" -> OuterTags(env, env[T.n])
+    [] IsRef(T) -> OuterTags(env, env[T.n])
     [] T.k = "CHOICE" -> UNION {OuterTags(env, AllComps(T)[i].t) : i \in DOMAIN AllComps(T)}
     [] OTHER -> {UniversalTag(T)}
 
@@ -62,7 +62,7 @@ OuterTags(env, T) ==
 RECURSIVE ValueTag(_, _, _)
 ValueTag(env, T, v) ==
   CASE T.k = "TAGGED" -> Tag(T.cl, T.num)
-    [] T.k = "REF" -> ValueTag(env, env[T.n], v)
+    [] IsRef(T) -> ValueTag(env, env[T.n], v)
     [] T.k = "CHOICE" -> ValueTag(env, CompByName(T, AltOf(v)).t, AltVal(v))
     [] OTHER -> UniversalTag(T)
 
@@ -92,7 +92,7 @@ IdentsOK(T) == LET cs == AllComps(T) IN \A i, j \in DOMAIN cs : i < j => cs[i].n
 EnumOK(T) == LET it == T.root \o T.adds IN \A i, j \in DOMAIN it : i < j => it[i].n # it[j].n /\ it[i].v # it[j].v
 RECURSIVE RefsOK(_, _)
 RefsOK(names, T) ==
-  CASE T.k = "REF" -> T.n \in names
+  CASE IsRef(T) -> T.n \in names
     [] T.k = "TAGGED" -> RefsOK(names, T.t)
     [] T.k \in {"SEQUENCE", "SET", "CHOICE"} -> \A i \in DOMAIN AllComps(T) : RefsOK(names, AllComps(T)[i].t)
     [] T.k \in {"SEQOF", "SETOF"} -> RefsOK(names, T.t)
